@@ -1,25 +1,21 @@
 # Per-property configuration of the driver (./check) and source of MANIFEST.json
-# (tools/gen_manifest.py).
-#   pkg      harness package directory under harness/
-#   level    evidence level
-#   race     build a second, -race binary and run its TestRace_* functions
-#   fuzz     [(native fuzz target, seconds)] - thorough tier only
-#   shards   processes per TestProp_* function in the thorough tier
-#   sched    uses the schedule-owning quiescence detector
+# (tools/gen_manifest.py). One JSON file per property under props/:
+#   pkg        harness package directory under harness/
+#   level      evidence level (exploration | fault_enumeration)
+#   race       true: build a second, -race binary and run its TestRace_* functions
+#   fuzz       [[native fuzz target, seconds], ...] - thorough tier only
+#   shards     processes per TestProp_* function in the thorough tier (default 16)
+#   sched      true: uses the schedule-owning quiescence detector
+#   technique / text / note / assumptions   MANIFEST and evidence texts
+import glob, json, os
 
-HOOK_COMMITS = [
-    "e1d1440",  # bitmap1024.VerifSetSparseMagic
-]
+_here = os.path.dirname(os.path.abspath(__file__))
+PROPS = {}
+for _f in sorted(glob.glob(os.path.join(_here, "props", "C*.json"))):
+    PROPS[os.path.basename(_f)[:-5]] = json.load(open(_f))
 
+# commits in /repo that add the verif-tagged hook files (add-only)
+HOOK_COMMITS = ["e1d1440", "727a4a0", "ea54d78", "e665bd8", "669fc16", "60e2860", "80c9a9f"]
+
+# reasons for properties that are not claimed (yet)
 PENDING = {}
-
-PROPS = {
-    "C08": {
-        "pkg": "c08bitmap", "level": "exploration", "fuzz": [("FuzzBit1024", 45)],
-        "technique": "property-based testing (rapid) against a [1024]bool reference model, metamorphic over the sparse threshold; native fuzzing in the thorough tier",
-        "text": "Generated search: every Set/Unset, Len/NLen, And/Or/Reverse/OrThenReverse/Equal and all 18+14 iterator/GetN entry points (int8/16/32/uint32/int64, both directions, 64-bit and 1024-bit layer) are compared with an independent member-list model on words drawn to sit on the sparse/dense threshold, with every n class (negative, 0, <Len, =Len, >Len), exact-size destination slices with sentinels, wrapping add, and two thresholds per case. It samples the 2^1024 space, it does not exhaust it.",
-        "note": "Trusted: the harness-side [1024]bool model and Go's arithmetic wrapping. Assumes callers give slices with room for pos+min(n,Len) elements and n>=0 to GetN* (as every caller in the repository does).",
-        "assumptions": ["destination slices have room for pos+min(max(n,0),Len) elements (the precondition every caller in the repository respects)",
-                        "GetN* is called with n >= 0 (it allocates n slots)"],
-    },
-}
